@@ -1976,6 +1976,10 @@ matrix_rem_generic(PyObject *self, PyObject *other, int inplace)
     return (PyObject *)ret;
   }
   else {
+    /* an in-place operation cannot change the type of the matrix (its
+       buffer may be exported) */
+    if (id != id_self) PY_ERR_TYPE("invalid inplace operation");
+
     void *ptr = convert_mtx_alloc((matrix *)self, id);
     if (!ptr) return PyErr_NoMemory();
 
